@@ -599,6 +599,13 @@ func (f *FuncCtx) callFunc(fn *types.Func, recv *Val, recvExpr ast.Expr, e *ast.
 			}
 		}
 	}
+	if strings.HasPrefix(pkgPath, modulePath) && f.E.declOf(fn) != nil && os.Getenv("VERIF_NO_ABSTRACT_GUARD") == "" {
+		// a function of this module that is neither under contract nor expandable in place (it has a loop, or is too
+		// deep) is abstracted as having no effect: only sound if it writes no module state (same rule as the frame guard)
+		if w, why := f.E.writesHeap(fn, 0, map[*types.Func]bool{}); w {
+			f.fail("call of %s: it writes module state (%s) but has no contract and cannot be expanded in place; abstracting it as effect-free would be unsound", short, why)
+		}
+	}
 	f.note("call abstracted (results unconstrained, no effect on modelled state except pointer-to-scalar arguments): " + short)
 	f.nopanicCallee(fn, short, e, env, nil)
 	return f.resultsOf(sig, fn.Name())
